@@ -218,8 +218,18 @@ def eval_stream(case):
     failures = []
     evals = 0
     legs = [("py", yaml.Loader, yaml.SafeLoader)] + ([("c", yaml.CLoader, yaml.CSafeLoader)] if have_c() else [])
-    for bname, L, SL in legs:
-        for level in ("parse", "compose", "load"):
+    # user classes with path resolvers: their resolver stacks are per-document state as well
+    if "path" not in _state:
+        _state["path"] = []
+        for bname, base in [("py-path", yaml.Loader)] + ([("c-path", yaml.CLoader)] if have_c() else []):
+            PL = type("PathLoader", (base,), {})
+            PL.add_path_resolver("!any-item", [None], str)
+            PL.add_path_resolver("!second-level", [None, None], str)
+            PL.add_path_resolver("!root-map", [], dict)
+            PL.add_path_resolver("!seq-under-root", [None], list)
+            _state["path"].append((bname, PL, None))
+    for bname, L, SL in legs + _state["path"]:
+        for level in (("parse", "compose", "load") if SL is not None else ("compose",)):
             evals += 1 + len(singles)
 
             def run(text):
@@ -240,8 +250,16 @@ def eval_stream(case):
                     return ("ok", [summarize(o) for o in yaml.load_all(text, Loader=SL)])
                 except yaml.YAMLError as e:
                     return ("exc", type(e).__name__)
+                except RecursionError:
+                    raise
+                except Exception as e:
+                    return ("exc", "non-yaml-error:%s" % exc_key(e))
             whole = run(full)
             parts = [run(t) for t in singles]
+            bad = [r for r in [whole] + parts if r[0] == "exc" and r[1].startswith("non-yaml-error")]
+            if bad:
+                failures.append(Failure("stream:%s:%s:%s" % (bname, level, bad[0][1]), "text=%r" % full[:400]))
+                continue
             if any(p[0] == "exc" for p in parts):
                 if level != "load":
                     failures.append(Failure("single-document-rejected:%s:%s" % (bname, level), "%r\n%r" % (parts, singles)))
@@ -255,6 +273,8 @@ def eval_stream(case):
                     k += 1
                 failures.append(Failure("stream-differs-from-documents:%s:%s" % (bname, level),
                                         "document %d: alone %.200r\nin stream %.200r\ntext=%r" % (k, alone[k:k + 1], whole[1][k:k + 1], full[:400])))
+        if SL is None:
+            continue
         # leakage probes built from the generated stream
         evals += 3
         probes = [("%TAG !zz! tag:z.org,2000:\n--- !zz!a x\n--- !zz!b y\n", "ParserError", "tag-handle-leaks-into-next-document"),
